@@ -687,6 +687,22 @@ def table : List Entry := [
     "debug_assert!" "debug_assert!(k > 0)" 1
     (.guardedBy
       "every call site passes a literal k in {1, 2, 3, 4}, w in {6, 7, 8}, or the macro literal $radix in {4, ..., 8} (2 * $radix)"),
+  site! "curve25519-dalek/src/edwards.rs" "macro_rules!impl_basepoint_table::create"
+    "index" "table.0[i]" 1
+    (.guardedBy
+      "i ranges over 0..32 and the table is an array of 32 lookup tables"),
+  site! "curve25519-dalek/src/edwards.rs" "macro_rules!impl_basepoint_table::mul_base"
+    "index" "tables[i / 2]" 2
+    (.guardedBy
+      "i ranges over 0..$adds with $adds in {64, 52, 43, 37, 33} in the five instantiations, so i / 2 <= 31 < 32 = number of tables"),
+  site! "curve25519-dalek/src/edwards.rs" "macro_rules!impl_basepoint_table::mul_base"
+    "index" "a[i]" 2
+    (.guardedBy
+      "i ranges over 0..$adds with $adds <= 64 = length of the digit array [i8; 64] returned by as_radix_2w"),
+  site! "curve25519-dalek/src/edwards.rs" "macro_rules!impl_basepoint_table::fmt"
+    "index" "self.0[i]" 1
+    (.unreachableFromUntrusted
+      "Debug formatting of a basepoint table; i ranges over 0..32 = number of tables anyway"),
   -- -------------------- curve25519-dalek/src/field.rs
   site! "curve25519-dalek/src/field.rs" "FieldElement::batch_invert"
     "assert!" "assert!(bool::from(!acc.is_zero()))" 1
